@@ -400,7 +400,7 @@ impl Property for C04 {
                 Tier::Thorough => (rest % GRID_PATTERNS, rest / GRID_PATTERNS == 1),
             };
             let digits = pattern_digits(rng, pat, len);
-            return Trace { value: Dec::new(neg, &digits, scale), ops: ALL_OPS.to_vec(), env: EnvSel::All, transport: (run % 7) as u8 };
+            return Trace { value: Dec::new(neg, &digits, scale), ops: ALL_OPS.to_vec(), env: EnvSel::All, transport: (run % 11) as u8 };
         }
         // two more deterministic sweeps: block boundaries of any buffered writer show up as particular scales
         // (plain notation pads |scale| zeros) and particular digit counts (every notation copies the digits)
@@ -408,7 +408,7 @@ impl Property for C04 {
         if r < SCALE_SWEEP {
             let scale = r as i64 / 2 - 2100;
             let digits = if r % 2 == 0 { "1".to_string() } else { format!("{}", 100 + rng.below(900)) };
-            return Trace { value: Dec::new((r / 2) % 2 == 1, &digits, scale), ops: ALL_OPS.to_vec(), env: EnvSel::All, transport: (r % 7) as u8 };
+            return Trace { value: Dec::new((r / 2) % 2 == 1, &digits, scale), ops: ALL_OPS.to_vec(), env: EnvSel::All, transport: (r % 11) as u8 };
         }
         let r = r - SCALE_SWEEP;
         if r < POW2_SWEEP {
@@ -421,7 +421,7 @@ impl Property for C04 {
             let mag = (1i64 << k) + d as i64 - 1;
             let (digits, neg) = [("0", false), ("1", false), ("7", true), ("123", false)][which as usize];
             let scale = if neg_side { -mag } else { mag };
-            return Trace { value: Dec::new(neg, digits, scale), ops: ALL_OPS.to_vec(), env: EnvSel::All, transport: (r % 7) as u8 };
+            return Trace { value: Dec::new(neg, digits, scale), ops: ALL_OPS.to_vec(), env: EnvSel::All, transport: (r % 11) as u8 };
         }
         let r = r - POW2_SWEEP;
         if r < LEN_SWEEP {
@@ -442,11 +442,11 @@ impl Property for C04 {
                 _ => len as i64 + rng.range(-2, 8),
             };
             // the sink-fault set is independent of the digit count: one environment keeps long values cheap
-            return Trace { value: Dec::new(r % 2 == 1, &digits, scale), ops: ALL_OPS.to_vec(), env: EnvSel::One(SinkSpec::FailAt { k: (r % 5) as usize, sticky: false }), transport: (r % 7) as u8 };
+            return Trace { value: Dec::new(r % 2 == 1, &digits, scale), ops: ALL_OPS.to_vec(), env: EnvSel::One(SinkSpec::FailAt { k: (r % 5) as usize, sticky: false }), transport: (r % 11) as u8 };
         }
         let cfg = ValueCfg::swarm(rng, 3000, 1_000_000_000_000_000);
         let (value, _) = gen::gen_dec(rng, &cfg);
-        let transport = rng.below(7) as u8;
+        let transport = rng.below(11) as u8;
         Trace { value, ops: ALL_OPS.to_vec(), env: EnvSel::All, transport }
     }
 
